@@ -25,10 +25,10 @@ struct Sub {
 struct App {
     char pc; int pi; int pi_nb; int pi_neg; int pi_frac;
     float pf; float pf_log; float pf_nb; float pf_unit;
-    bool pt; int po; int po_b; Opt4 po_e; int po_gap; int po_ooo; int pi7;
+    bool pt; int po; int po_b; Opt4 po_e; int po_gap; int po_ooo; int pi7; float af24[24]; bool at12[12]; int ao11[11]; float pf_sp; int pi_sp; int po_sp;
     char ps[16]; char ps4[4];
     float af[4]; int ai[5]; bool at[3]; int ao[3];
-    Sub sub; Sub subs[3]; Sub *psub;
+    Sub sub; Sub subs[3]; Sub *psub; Sub subs12[12];
     Sub psub_store;
     App() { memset((void *)this, 0, sizeof *this); psub = &psub_store; pi_neg = -20; pf_log = 1.0f; }   // every field starts inside its declared range
     static const rtosc::Ports ports;
@@ -61,6 +61,13 @@ inline const rtosc::Ports App::ports = {
     rOption(po_gap, rOpt(0, zero) rOpt(1, one) rOpt(4, four) rOpt(9, nine), rLinear(0, 9), "option with gaps in its numbering"),
     rOption(po_ooo, rOpt(2, two) rOpt(0, zero) rOpt(1, one), "option listed out of numeric order"),
     rParamI(pi7, rLinear(0, 127), "int param with the MIDI range"),
+    rArrayF(af24, 24, rLinear(-1, 1), "float array with two-digit indices"),
+    rArrayT(at12, 12, "toggle array with two-digit indices"),
+    rArrayOption(ao11, 11, rOptions(xx, yy, zz), rLinear(0, 2), "option array with two-digit indices"),
+    rRecurs(subs12, 12, "sub tree array with two-digit indices"),
+    rParamF(pf_sp, rSpecial(disabled), rShort("sp"), rCentered, rLinear(-3, 3), "float param whose range follows other metadata"),
+    rParamI(pi_sp, rSpecial(random), rLinear(-7, 7), rShort("isp"), "int param whose range follows a valueless-looking entry"),
+    rOption(po_sp, rSpecial(none), rOptions(alpha, beta, gamma), rLinear(0, 2), "option whose map follows other metadata"),
     rString(ps, 16, "string"),
     rString(ps4, 4, "short string"),
     rArrayF(af, 4, rLinear(-1, 1), "float array"),
@@ -141,6 +148,13 @@ inline const std::vector<Leaf> &leaves() {
     { Leaf l{"/po_gap", K_OPTION, true, true, "0", "9", {"zero", "one", "four", "nine"}, 0, [](App &a) { return vi(a.po_gap); }}; l.optidx = {0, 1, 4, 9}; L.push_back(l); }
     { Leaf l{"/po_ooo", K_OPTION, false, false, "", "", {"two", "zero", "one"}, 0, [](App &a) { return vi(a.po_ooo); }}; l.optidx = {2, 0, 1}; L.push_back(l); }
     L.push_back({"/pi7", K_PARAM_I, true, true, "0", "127", {}, 0, [](App &a) { return vi(a.pi7); }});
+    for (int i = 0; i < 24; i++) L.push_back({"/af24" + std::to_string(i), K_PARAM_F, true, true, "-1", "1", {}, 0, [i](App &a) { return vf(a.af24[i]); }});
+    for (int i = 0; i < 12; i++) L.push_back({"/at12" + std::to_string(i), K_TOGGLE, false, false, "", "", {}, 0, [i](App &a) { return vb(a.at12[i]); }});
+    for (int i = 0; i < 11; i++) L.push_back({"/ao11" + std::to_string(i), K_OPTION, true, true, "0", "2", o3, 0, [i](App &a) { return vi(a.ao11[i]); }});
+    for (int i = 0; i < 12; i++) add_sub_leaves(L, "/subs12" + std::to_string(i) + "/", [i](App &a) { return &a.subs12[i]; });
+    L.push_back({"/pf_sp", K_PARAM_F, true, true, "-3", "3", {}, 0, [](App &a) { return vf(a.pf_sp); }});
+    L.push_back({"/pi_sp", K_PARAM_I, true, true, "-7", "7", {}, 0, [](App &a) { return vi(a.pi_sp); }});
+    L.push_back({"/po_sp", K_OPTION, true, true, "0", "2", {"alpha", "beta", "gamma"}, 0, [](App &a) { return vi(a.po_sp); }});
     return L;
 }
 
